@@ -8,18 +8,18 @@ pub mod m1_perm0 {
    use crate::common::*;
    ascent! {
       pub struct Prog;
-      relation r3(i64, i64, i64);
-      relation r0(i64, i64);
       relation r2(i64);
+      relation r0(i64, i64);
       relation r1(i64, i64);
-      r3(v1, v1, v1) <-- r1(0, v0), r1(v0, v1), r0(3, 2);
+      relation r3(i64, i64, i64);
       r3(1, 2, 1);
-      r3(v0, v1, v2) <-- r0(v0, v1) if ((*v0) < 3), r1(v1, v2) if ((*v2) != (*v1));
-      r3(v0, v0, (v0 + 1)) <-- let v0 = 2, r1(v0, v0), if (v0 < 6), r3(v0, (v0 + 1), (v0 + 1));
-      r1(3, 3) <-- r1(1, 1);
-      r3(v1, ((*v0) + 1), v1) <-- r2(v0) if ((*v0) < 2), if ((*v0) < 6), r1(v1, v0);
+      r3(v1, v1, v1) <-- r1(0, v0), r0(3, 2), r1(v0, v1);
       r3(0, 3, 3) <-- r0(1, 1);
+      r3(v0, v1, v2) <-- r0(v0, v1) if ((*v0) < 3), r1(v1, v2) if ((*v2) != (*v1));
       r2(v0) <-- r0(v0, v1) if ((*v0) < 3), r1(v1, v2) if ((*v2) != (*v1));
+      r1(3, 3) <-- r1(1, 1);
+      r3(v0, v0, (v0 + 1)) <-- let v0 = 2, r1(v0, v0), if (v0 <= 6), if (v0 < 6), r3(v0, (v0 + 1), (v0 + 1));
+      r3(v1, ((*v0) + 1), v1) <-- r2(v0) if ((*v0) < 2), if ((*v0) < 6), r1(v1, v0);
    }
    pub struct Inst { p: Prog, pool: Option<ascent::rayon::ThreadPool> }
    pub fn make(pool: Option<usize>) -> Box<dyn Driver> {
@@ -60,13 +60,13 @@ pub mod m2_ren1 {
       relation foo(i64, i64);
       relation bar(i64, i64);
       relation baz(i64, i64);
-      node(c) <-- edge(0, a) if ((*a) <= 6) let b = ((*a) + 0), let c = 1;
+      node(c) <-- edge(0, a) if ((*a) <= 6) let b = ((*a) + 0), let c = 1, if (c <= 6);
       foo(0, b) <-- for a in 2..1, node(a) if (a < 6), path(b);
       node(3) <-- foo(a, b);
       bar(a, b) <-- edge(a, b), foo(a, a), edge(b, c);
       node(a) <-- baz(a, b), baz(a, a), baz(b, c);
       bar(c, b) <-- if let Some(a) = Some(0), node(b) if ((*b) < 5), path(c) if ((*c) != 3);
-      foo(a, c) <-- foo(0, 0), bar(0, a) if ((*a) <= 3), foo(((*a) + 0), b), if let Some(c) = Some(((*a) + 0));
+      foo(a, c) <-- foo(0, 0), bar(0, a) if ((*a) <= 3), foo(((*a) + 0), b), if let Some(c) = Some(((*a) + 0)), if (c <= 6);
       baz(((*a) + 1), a) <-- baz(a, b), if ((*a) < 6);
    }
    pub struct Inst { p: Prog, pool: Option<ascent::rayon::ThreadPool> }
@@ -104,14 +104,14 @@ pub mod m4_perm1 {
    use crate::common::*;
    ascent! {
       pub struct Prog;
-      relation r0(i64, i64);
-      relation r2(i64, i64, i64);
       relation r1(i64);
       relation r3(i64, i64, i64);
+      relation r0(i64, i64);
+      relation r2(i64, i64, i64);
+      r3(v0, 0, 0) <-- if let Some(v0) = Some(3), if (v0 <= 6), r1(v0) if (v0 <= 2);
       r2(v0, v1, v2) <-- r0(v0, v1) if ((*v0) < 5), r0(v1, v2) if ((*v2) != (*v1));
-      r3(v0, v2, v2) <-- if let Some(v0) = Some(4), r3(v1, v0, v2), r1(((*v1) + 1));
-      r3(v0, 0, 0) <-- if let Some(v0) = Some(3), r1(v0) if (v0 <= 2);
-      r2(v0, v0, v0) <-- let v0 = 3, r1(3);
+      r3(v0, v2, v2) <-- if let Some(v0) = Some(4), r3(v1, v0, v2), r1(((*v1) + 1)), if (v0 <= 6);
+      r2(v0, v0, v0) <-- let v0 = 3, r1(3), if (v0 <= 6);
    }
    pub struct Inst { p: Prog, pool: Option<ascent::rayon::ThreadPool> }
    pub fn make(pool: Option<usize>) -> Box<dyn Driver> {
